@@ -595,6 +595,69 @@ func TestVerifC15(t *testing.T) {
 			func(req *wire.Request, p *hprog) wire.Response { pr.with.set(p); return pr.ew.do(req, dl) },
 			func(req *wire.Request, p *hprog) wire.Response { pr.without.set(p); return pr.eo.do(req, dl) })
 	}
+	// several gzip instances coexisting in one process, each with its own content types, minimum
+	// size and level: each decides by its own configuration, in both orders of use
+	if shard == 1%shards {
+		type ginst struct {
+			name  string
+			types []string
+			min   int
+			ps    *progServer
+		}
+		insts := []*ginst{
+			{name: "html-only/min10", types: []string{"text/html"}, min: 10},
+			{name: "json-only/min10", types: []string{"application/json"}, min: 10},
+			{name: "text-any/min500", types: []string{"text/"}, min: 500},
+			{name: "image-only/min10", types: []string{"image/svg"}, min: 10},
+		}
+		for i, in := range insts {
+			ps, err := newProgServer([]config.PluginConfig{gzipCfg(1+2*i, in.min, in.types...)})
+			if err != nil {
+				t.Fatal(err)
+			}
+			in.ps = ps
+		}
+		order := append([]*ginst{}, insts...)
+		for i := len(insts) - 1; i >= 0; i-- {
+			order = append(order, insts[i])
+		}
+		for _, in := range order {
+			e := &exch{addr: in.ps.addr}
+			for _, ct := range []string{"text/html", "application/json", "text/plain", "image/svg+xml"} {
+				for _, n := range []int{100, 2000} {
+					body := c15Payload("text", n)
+					in.ps.set(&hprog{Status: 200, Header: []wire.HeaderLine{{"Content-Type", ct}}, Parts: [][]byte{body}})
+					resp := e.do(&wire.Request{Method: "GET", Target: "/g", Header: []wire.HeaderLine{{"Host", "x.test"}, {"Accept-Encoding", "gzip"}}, NoBody: true}, dl)
+					evals++
+					desc := fmt.Sprintf("gzip instance %s among %d coexisting instances: %d bytes of %s", in.name, len(insts), n, ct)
+					compressed := resp.Get("Content-Encoding") != ""
+					allowed := n >= in.min
+					if allowed {
+						allowed = false
+						for _, pfx := range in.types {
+							if strings.HasPrefix(ct, pfx) {
+								allowed = true
+							}
+						}
+					}
+					outs.Add(fmt.Sprintf("instances/%s/%v/%v", in.name, allowed, compressed))
+					got, derr := c15Decode(resp)
+					switch {
+					case resp.Err != "" || resp.Status != 200:
+						r.Violate("C15/instances/exchange-failed", fmt.Sprintf("%s: status %d %s", desc, resp.Status, resp.Err), n, nil)
+					case derr != "" || !bytes.Equal(got, body):
+						r.Violate("C15/instances/decoded-body-differs", fmt.Sprintf("%s: decoding as labelled gives %d bytes (%s), the origin sent %d", desc, len(got), derr, len(body)), n, nil)
+					case compressed && !allowed:
+						r.Violate("C15/instances/compressed-against-own-configuration", fmt.Sprintf("%s: compressed although this instance is configured with content_types %v and min_size %d", desc, in.types, in.min), n, nil)
+					}
+				}
+			}
+			e.close()
+		}
+		for _, in := range insts {
+			in.ps.srv.Close()
+		}
+	}
 	// mounting (a): the origin is a backend behind the real balancer and reverse proxy
 	if shard == 0 || shards == 1 {
 		be := wire.NewBackend("b0")
